@@ -27,8 +27,8 @@ MODEL = {"M": 32, "P": 2}
 PLANS = {
     "quick": [dict(name="L3-ops4", L=3, dirs="{0}", ops=4, seglen=3, grid="MC_CfgsQuick", mod=64)],
     "thorough": [dict(name="L3-ops4-full", L=3, dirs="{0}", ops=4, seglen=3, grid="MC_CfgsThorough", mod=96),
-                 dict(name="L4-ops4", L=4, dirs="{0}", ops=4, seglen=4, grid="MC_CfgsQuick", mod=64),
-                 dict(name="L3-ops3-bidir", L=3, dirs="{0,1}", ops=3, seglen=3, grid="MC_CfgsQuick", mod=8)],
+                 dict(name="L4-ops4", L=4, dirs="{0}", ops=4, seglen=4, grid="MC_CfgsAll12", mod=64),
+                 dict(name="L3-ops3-bidir", L=3, dirs="{0,1}", ops=3, seglen=3, grid="MC_CfgsAll12", mod=8)],
 }
 
 # pre-fix shapes of the code: each must make TLC violate ImplSatisfiesProp
@@ -39,9 +39,21 @@ DEFECTS = [
          what="nextSeq advanced for a FIN that is still queued"),
     dict(name="saved-pages-leak-at-close", fix="82c8ff2", subst={r"ReleaseSaved = TRUE": "ReleaseSaved = FALSE"}, grid="MC_CfgsKeep",
          what="closeHalfConnection does not release the saved (KeepFrom) pages"),
-    dict(name="cleansg-skip-accounting", fix="ea98ddb", subst={r"CleanSkipFixed = TRUE": "CleanSkipFixed = FALSE"}, grid="MC_CfgsKeep",
+    dict(name="cleansg-skip-accounting", fix="ea98ddb", subst={r"CleanSkipFixed = TRUE": "CleanSkipFixed = FALSE"}, grid="MC_CfgsClean",
          what="cleanSG applies the KeepFrom offset again behind a live packet"),
 ]
+
+
+# design-level findings escalated beyond the exhaustive bound: one scripted scenario each, run through the model
+# (prediction + the model's own Judge verdict) and through the real code.  While ENFORCED is False a rejection of
+# the real behaviour is printed as FINDING-PROPOSED and recorded in the evidence without affecting the exit code
+# (the maintainer decides between a fix: commit and a known_findings entry, then sets it to True).
+ESCALATIONS = [
+    dict(name="page-limit-undercount", property="C11", script="MC_ScriptPageLimit", grid="MC_CfgsScript", L=10, ops=8, seglen=1,
+         what="half.pages does not count the pages of a kept (KeepFrom) live packet but uncounts them when they are released: "
+              "MaxBufferedPagesPerConnection=1 lets three out-of-order pages queue up"),
+]
+ESCALATED_ENFORCED = False
 
 
 def _subst(plan, seed, extra=None):
@@ -67,7 +79,7 @@ def defect_run(d, wd):
     sub = _subst(plan, 0, d["subst"])
     sub[r"ExportRem = \d+"] = "ExportRem = 1"          # nothing exported
     sub[r"INVARIANTS[^\n]*"] = "INVARIANTS ImplSatisfiesProp"
-    r = vlib.tlc("ReasmImplMC", workdir=wd, timeout=900, workers=1, cfg_subst=sub)     # 1 worker: shortest counterexample, deterministic
+    r = vlib.tlc("ReasmImplMC", workdir=wd, timeout=900, workers=2, cfg_subst=sub)
     cex = [json.loads(l[4:]) for l in r.printed if isinstance(l, str) and l.startswith("CEX ")]
     return {"name": d["name"], "what": d["what"], "repaired_by": d["fix"], "violated": r.violated, "states": r.distinct,
             "wall_s": round(r.wall, 1), "counterexample": cex[0] if cex else None}
@@ -84,6 +96,25 @@ def design_note_half_pages(wd):
     return {"invariant": "HalfPagesExact", "violated_in_model": r.violated == "HalfPagesExact", "states": r.distinct,
             "meaning": "cleanSG converts a kept live packet into pages without counting them in half.pages, and addPending drops "
                        "non-contiguous saved pages without uncounting them: half.pages drifts from the pages really held"}
+
+
+def escalation_run(e, binp, wd):
+    """Scripted scenario: model prediction and model verdict (TLC), then the real code (replay, comparison, Judge)."""
+    plan = dict(L=e["L"], dirs="{0}", ops=e["ops"], seglen=e["seglen"], grid=e["grid"], mod=1)
+    sub = _subst(plan, 0, {r"Script <- \w+": "Script <- %s" % e["script"]})
+    sub[r"INVARIANTS[^\n]*"] = "INVARIANTS Export"
+    os.makedirs(wd, exist_ok=True)
+    r = vlib.tlc("ReasmImplMC", workdir=os.path.join(wd, "tlc"), timeout=900, workers=1, cfg_subst=sub)
+    beh = [l[4:] for l in r.printed if isinstance(l, str) and l.startswith("BEH ")]
+    if len(beh) != 1:
+        raise vlib.Infra("escalation %s: expected one scripted behaviour, got %d" % (e["name"], len(beh)))
+    b = json.loads(beh[0])
+    st, drift, tp = replay(binp, beh, plan, wd, "esc")
+    v, bad = validate(tp, "esc-" + e["name"])
+    return {"name": e["name"], "property": e["property"], "what": e["what"], "cfg": b["cfg"], "ops": b["ops"],
+            "model_judge": sorted(set(x[0] for x in b["verdicts"])) or ["accepted"],
+            "real_code_judge": [x[0]["reason"] for x in bad] or ["accepted"], "model_vs_code_drift": st["drift"],
+            "enforced": ESCALATED_ENFORCED, "_bad": bad}
 
 
 def replay(binp, beh_lines, plan, wd, tag):
@@ -162,11 +193,12 @@ def run_impl(ctx, verdict_for, with_self_test=True):
            "states": 0, "transitions": 0, "traces_validated_against_impl": 0, "trace_events_validated": 0,
            "events_compared_model_vs_code": 0, "rejected_real_scenarios": 0, "samples": []}
 
-    with ThreadPoolExecutor(max_workers=3) as ex:
-        # defect-finding configurations and the bookkeeping note run beside the main check (each a few hundred states)
+    with ThreadPoolExecutor(max_workers=6) as ex:
+        # defect-finding configurations and the bookkeeping note run beside the main check (small state spaces)
         fd = [ex.submit(defect_run, d, os.path.join(wd, "defect-" + d["name"])) for d in DEFECTS]
         fn = ex.submit(design_note_half_pages, os.path.join(wd, "note"))
-        first_beh = None
+        fe = [ex.submit(escalation_run, e, binp, os.path.join(wd, "esc-" + e["name"])) for e in ESCALATIONS]
+        fself = None
         for pi, plan in enumerate(plans):
             r, beh, cex = check_and_export(plan, ctx.seed, os.path.join(wd, "mc-%d" % pi))
             rec = {"plan": plan, "tlc_states": r.distinct, "tlc_generated": r.generated, "depth": r.depth, "tlc_wall_s": round(r.wall, 1),
@@ -175,16 +207,31 @@ def run_impl(ctx, verdict_for, with_self_test=True):
             cov["states"] += r.distinct
             cov["transitions"] += r.generated
             log("[impl] %s: %d states, %.1fs, violated=%s, %d behaviours exported" % (plan["name"], r.distinct, r.wall, r.violated, len(beh)))
-            if r.violated:
-                # a design-level counterexample of the transcription is not a verdict about the code: it is replayed below
-                rec["model_counterexamples"] = cex[:3]
-                beh = beh + [json.dumps({"cfg": c["cfg"], "ops": c["ops"]}) for c in cex[:20]]
             if not beh:
                 raise vlib.Infra("ReasmImplMC exported no behaviours for plan %s" % plan["name"])
-            st, drift, tp = replay(binp, beh, plan, wd, "p%d" % pi)
+            nbeh = len(beh)
+            extra = []          # (what, record) of behaviours replayed without a prediction
+            if r.violated:
+                # a design-level counterexample of the transcription is not a verdict about the code: it is replayed
+                rec["model_counterexamples"] = cex[:3]
+                extra += [("model-counterexample", c) for c in cex[:20]]
+            if pi == 0:
+                # the counterexamples of the pre-fix shapes are replayed on the real code: today's code must not show them
+                cov["defect_finding_runs"] = [f.result() for f in fd]
+                for d in cov["defect_finding_runs"]:
+                    if d["violated"] != "ImplSatisfiesProp" or not d["counterexample"]:
+                        raise vlib.Infra("defect-finding run %s: TLC did not refute the pre-fix shape (violated=%s)" % (d["name"], d["violated"]))
+                    extra.append((d["name"], d["counterexample"]))
+            t1 = time.time()
+            st, drift, tp = replay(binp, beh + [json.dumps({"cfg": c["cfg"], "ops": c["ops"]}) for _, c in extra], plan, wd, "p%d" % pi)
             if st.get("hang"):
                 log("[impl] driver watchdog fired")
+            if pi == 0 and with_self_test:
+                fself = ex.submit(self_test, binp, beh, plan, wd)
+            t2 = time.time()
             v, bad = validate(tp, "p%d" % pi)
+            log("[impl] %s: replay %.1fs (%d behaviours, drift %d), trace validation %.1fs (%d events, %d rejected)"
+                % (plan["name"], t2 - t1, st["scenarios"], st["drift"], time.time() - t2, st["events"], v["nbad"]))
             rec.update({"replayed": st["scenarios"], "events": st["events"], "compared_events": st["compared_events"],
                         "drift": st["drift"], "deliveries": st["deliveries"], "deliveries_with_skip": st["deliveries_with_skip"],
                         "deliveries_with_saved": st["deliveries_with_saved"], "trace_states": v["states"], "rejected": v["nbad"]})
@@ -202,35 +249,44 @@ def run_impl(ctx, verdict_for, with_self_test=True):
                 with open(tp) as f:
                     cov["samples"] = [json.loads(next(f)) for _ in range(6)]
             for b, evs in bad:
+                payload = {"driver": "reasm_impl", "bad": b, "events": evs, "plan": plan, "model": MODEL}
+                if b["sc"] > nbeh:
+                    what, c = extra[b["sc"] - nbeh - 1]
+                    payload["counterexample_of"] = what
+                    for d in cov["defect_finding_runs"]:
+                        if d["name"] == what:
+                            d["real_code"] = "REJECTED by Reasm!Judge: %s" % b["reason"]
                 V = verdict_for(b["reason"])
                 if V is not None:
-                    V.reject({"assembler": b["asm"], "reason": b["reason"], "op": b["op"]},
-                             {"driver": "reasm_impl", "bad": b, "events": evs, "plan": plan, "model": MODEL})
-            if first_beh is None:
-                first_beh = (beh, plan)
+                    V.reject({"assembler": b["asm"], "reason": b["reason"], "op": b["op"]}, payload)
             os.remove(tp)
-        cov["defect_finding_runs"] = [f.result() for f in fd]
+        for d in cov["defect_finding_runs"]:
+            d.setdefault("real_code", "accepted by Reasm!Judge (the real code does not show the model's counterexample)")
         cov["design_notes"] = [fn.result()]
-    for d in cov["defect_finding_runs"]:
-        if d["violated"] != "ImplSatisfiesProp" or not d["counterexample"]:
-            raise vlib.Infra("defect-finding run %s: TLC did not refute the pre-fix shape (violated=%s)" % (d["name"], d["violated"]))
-    # the counterexamples of the pre-fix shapes are replayed on the real code: today's code must not show them
-    cexb = [json.dumps({"cfg": d["counterexample"]["cfg"], "ops": d["counterexample"]["ops"]}) for d in cov["defect_finding_runs"]]
-    st, _, tp = replay(binp, cexb, dict(L=3), wd, "cex")
-    v, bad = validate(tp, "cex")
-    for (b, evs) in bad:
-        d = cov["defect_finding_runs"][b["sc"] - 1]
-        d["real_code"] = "REJECTED by Reasm!Judge: %s" % b["reason"]
-        V = verdict_for(b["reason"])
-        if V is not None:
-            V.reject({"assembler": b["asm"], "reason": b["reason"], "op": b["op"]},
-                     {"driver": "reasm_impl", "bad": b, "events": evs, "counterexample_of": d["name"], "model": MODEL})
-    for d in cov["defect_finding_runs"]:
-        d.setdefault("real_code", "accepted by Reasm!Judge (the real code does not show the model's counterexample)")
-    cov["traces_validated_against_impl"] += st["scenarios"]
-    cov["rejected_real_scenarios"] += v["nbad"]
-    if with_self_test and cov["rejected_real_scenarios"] == 0 and cov["impl_drift"]["behaviours_with_drift"] == 0:
-        cov["binding_self_tests"] = self_test(binp, first_beh[0], first_beh[1], wd)
+        cov["escalated_scenarios"] = []
+        for f in fe:
+            e = f.result()
+            bad = e.pop("_bad")
+            cov["escalated_scenarios"].append(e)
+            cov["traces_validated_against_impl"] += 1
+            for bb, evs in bad:
+                if ESCALATED_ENFORCED:
+                    V = verdict_for(bb["reason"])
+                    if V is not None:
+                        V.reject({"assembler": bb["asm"], "reason": bb["reason"], "op": bb["op"]},
+                                 {"driver": "reasm_impl", "bad": bb, "events": evs, "escalation": e["name"], "model": MODEL})
+                else:
+                    log("FINDING-PROPOSED: property=%s %s: real code rejected by Reasm!Judge (%s) on scripted scenario cfg=%s ops=%s "
+                        "[not enforced: see ESCALATED_ENFORCED in tools/props/reasmimpl.py]"
+                        % (e["property"], e["name"], bb["reason"], json.dumps(e["cfg"]), json.dumps(e["ops"])))
+        if fself is not None:
+            try:
+                cov["binding_self_tests"] = fself.result()
+            except vlib.Infra:
+                # the self-test presupposes a code base the model agrees with; with drift or rejections it is moot
+                if cov["rejected_real_scenarios"] == 0 and cov["impl_drift"]["behaviours_with_drift"] == 0:
+                    raise
+                cov["binding_self_tests"] = "skipped (real code deviates from the model in this run)"
     cov["impl_wall_s"] = round(time.time() - t0, 1)
     if cov["impl_drift"]["behaviours_with_drift"]:
         log("IMPL-DRIFT: %d replayed behaviours differ from the prediction of ReasmImpl.tla (kinds %s) - not a verdict"
